@@ -414,7 +414,7 @@ func assumptionsFor(prop string, w *World) []string {
 	out := []string{
 		"int is 64 bit; machine integer arithmetic is modelled exactly as wrap-around on mathematical integers",
 		"error message texts and fmt/strconv formatting results are abstracted (only nil-ness, %w chains and functional dependence are kept)",
-		"slice capacity, allocation identity and aliasing of backing arrays are not modelled",
+		"slice capacity and allocation identity are not modelled; slices are values in the logic - the side condition that makes this sound inside one function body (no two slice variables copied from one another are in use while one is appended to) is checked syntactically for every function under contract, aliasing across calls is not",
 		"map iteration order is replaced by an arbitrary (demonic) duplicate-free enumeration",
 		"package-level variables that are never assigned outside their declaration are constants",
 		"termination is proved only for loops with a `decreases` clause",
